@@ -45,6 +45,15 @@ var cellTypes = []cellType{
 	{"ptr", "*Rec", "mkrec(a)", "mkrec(a + 5)"},
 	{"rec", "Rec", "Rec{n: a, w: 4, tag: 9}", "Rec{n: a + 1}"},
 	{"map", "map[uint64]uint64", "mkmap(a)", "mkmap(a + 1)"},
+	{"srec", "[]Rec", "mkrecs(a)", "mkrecs(a + 3)"},
+	{"sptr", "[]*Rec", "mkptrs(a)", "mkptrs(a + 3)"},
+	{"wrap", "*Wrap", "mkwrap(a)", "mkwrap(a + 9)"},
+	{"mstr", "map[string]uint64", "mkmstr(a)", "mkmstr(a + 1)"},
+	{"pu64", "*uint64", "mkpu64(a)", "mkpu64(a + 1)"},
+	{"pu8", "*byte", "mkpu8(a)", "mkpu8(a + 1)"},
+	{"fn", "func(uint64) uint64", "mkfn(a)", "mkfn(a + 1)"},
+	{"sstr", "[]string", "mkstrs(a)", "mkstrs(a + 1)"},
+	{"msl", "map[uint64][]byte", "mkmsl(a)", "mkmsl(a + 1)"},
 }
 
 const matrixPrelude = `type Rec struct {
@@ -94,6 +103,70 @@ func mkmap(a uint64) map[uint64]uint64 {
 	m := make(map[uint64]uint64)
 	m[1] = a
 	m[a] = 2
+	return m
+}
+
+type Wrap struct {
+	k uint64
+	r Rec
+	p *Rec
+	s []uint64
+}
+
+func mkrecs(a uint64) []Rec {
+	s := make([]Rec, 3)
+	s[0] = Rec{n: a, w: 1, tag: 2}
+	s[1] = Rec{n: a + 1, w: 10, tag: 20}
+	s[2] = Rec{n: a * 2}
+	return s
+}
+
+func mkptrs(a uint64) []*Rec {
+	s := make([]*Rec, 2)
+	s[0] = mkrec(a)
+	s[1] = mkrec(a + 7)
+	return s
+}
+
+func mkwrap(a uint64) *Wrap {
+	return &Wrap{k: a, r: Rec{n: a + 1, w: 3, tag: 4}, p: mkrec(a + 2), s: mkslice(a)}
+}
+
+func mkmstr(a uint64) map[string]uint64 {
+	m := make(map[string]uint64)
+	m["one"] = a
+	m[mkstr(a)] = 2
+	return m
+}
+
+func mkpu64(a uint64) *uint64 {
+	p := new(uint64)
+	*p = a + 3
+	return p
+}
+
+func mkpu8(a uint64) *byte {
+	p := new(byte)
+	*p = byte(a) + 250
+	return p
+}
+
+func mkfn(a uint64) func(uint64) uint64 {
+	return func(x uint64) uint64 {
+		return x*2 + a
+	}
+}
+
+func mkstrs(a uint64) []string {
+	s := make([]string, 2)
+	s[0] = mkstr(a)
+	s[1] = "z"
+	return s
+}
+
+func mkmsl(a uint64) map[uint64][]byte {
+	m := make(map[uint64][]byte)
+	m[1] = mkbytes(a)
 	return m
 }
 
@@ -151,7 +224,7 @@ var operations = []operation{
 	{id: "index", on: []string{"u64"}, ret: "uint64", body: "s := mkslice(9)\n\treturn s[%E%3]"},
 	{id: "assign", on: []string{"u64", "u32", "u8", "bool", "str"}, ret: "%T", body: "%E = %W\n\treturn %E", write: true},
 	{id: "opassign", on: []string{"u64", "u32", "u8"}, ret: "%T", body: "%E += %W\n\t%E ^= 5\n\t%E -= 1\n\treturn %E", write: true},
-	{id: "passarg", on: []string{"u64", "u32", "u8", "bool", "str", "su64", "sb", "ptr", "rec", "map"}, ret: "uint64", body: "return use_%t(%E)"},
+	{id: "passarg", on: []string{"u64", "u32", "u8", "bool", "str", "su64", "sb", "ptr", "rec", "map", "srec", "sptr", "wrap", "mstr", "pu64", "pu8", "fn", "sstr", "msl"}, ret: "uint64", body: "return use_%t(%E)"},
 	// bool
 	{id: "logic", on: []string{"bool"}, ret: "(bool, bool, uint64)", body: "var r uint64 = 0\n\tif %E && !%W {\n\t\tr = 1\n\t} else if %E || %W {\n\t\tr = 2\n\t}\n\treturn !%E, %E == %W, r"},
 	// strings
@@ -170,7 +243,7 @@ var operations = []operation{
 	{id: "copy", on: []string{"sb"}, ret: "(uint64, []byte)", body: "d := make([]byte, 3)\n\tn := copy(d, %E)\n\tm := copy(%E, %W[2:])\n\treturn uint64(n) + uint64(m)*10, d"},
 	{id: "elemptr", on: []string{"su64"}, ret: "(uint64, uint64)", body: "e := &%E[1]\n\t*e = *e + 100\n\treturn %E[1], *e"},
 	{id: "tostring", on: []string{"sb"}, ret: "string", body: "return string(%E)"},
-	{id: "nilcmp", on: []string{"su64", "sb", "ptr"}, ret: "(bool, bool)", body: "return %E == nil, %E != nil"},
+	{id: "nilcmp", on: []string{"su64", "sb", "ptr", "pu64", "wrap"}, ret: "(bool, bool)", body: "return %E == nil, %E != nil"},
 	{id: "encode", on: []string{"sb"}, ret: "(uint32, []byte)", body: "machine.UInt32Put(%E, 0xA1B2C3D4)\n\treturn machine.UInt32Get(%E), %E"},
 	// pointers to structs
 	{id: "fieldrw", on: []string{"ptr"}, ret: "(uint64, uint32, byte)", body: "%E.n = %E.n + 10\n\t%E.w += 2\n\t%E.tag = %E.tag ^ 1\n\treturn %E.n, %E.w, %E.tag"},
@@ -190,6 +263,26 @@ var operations = []operation{
 	{id: "mapget", on: []string{"map"}, ret: "(uint64, uint64, bool, bool)", body: "v, ok := %E[1]\n\t_, ok2 := %E[999]\n\treturn v, %E[999], ok, ok2"},
 	{id: "mapset", on: []string{"map"}, ret: "(uint64, uint64)", body: "%E[5] = 50\n\t%E[1] += 1\n\tdelete(%E, 999)\n\tdelete(%E, 5)\n\treturn %E[1], uint64(len(%E))"},
 	{id: "maprange", on: []string{"map"}, ret: "(uint64, uint64)", body: "var ks uint64 = 0\n\tvar vs uint64 = 0\n\tfor k, v := range %E {\n\t\tks += k\n\t\tvs += v\n\t}\n\treturn ks, vs"},
+	// slices of structs / pointers / strings
+	{id: "recs_read", on: []string{"srec"}, ret: "(uint64, uint32, byte, uint64)", body: "return %E[1].n, %E[1].w, %E[0].tag, uint64(len(%E))"},
+	{id: "recs_store", on: []string{"srec"}, ret: "(uint64, uint64)", body: "%E[2] = Rec{n: 5, w: 6}\n\tc := %E[2]\n\treturn c.n + uint64(c.w), %E[0].n"},
+	{id: "recs_range", on: []string{"srec"}, ret: "uint64", body: "var t uint64 = 0\n\tfor i, e := range %E {\n\t\tt += e.n*uint64(i+1) + uint64(e.w) + uint64(e.tag)\n\t}\n\treturn t"},
+	{id: "recs_append", on: []string{"srec"}, ret: "(uint64, uint64)", body: "t := append(%E, Rec{n: 99})\n\treturn uint64(len(t)), t[3].n + t[1].n"},
+	{id: "recs_elemptr", on: []string{"srec"}, ret: "(uint64, uint64)", body: "e := &%E[1]\n\te.n = e.n + 100\n\treturn %E[1].n, e.bump(1)"},
+	{id: "ptrs_ops", on: []string{"sptr"}, ret: "(uint64, uint64, uint64)", body: "%E[0].n += 5\n\tr := %E[1].bump(2)\n\tvar t uint64 = 0\n\tfor _, e := range %E {\n\t\tt += e.n\n\t}\n\treturn %E[0].n, r, t"},
+	{id: "strs_ops", on: []string{"sstr"}, ret: "(string, uint64)", body: "var t string = \"\"\n\tfor _, e := range %E {\n\t\tt = t + e\n\t}\n\treturn t + %E[1], uint64(len(%E[0]))"},
+	// nested structs
+	{id: "wrap_read", on: []string{"wrap"}, ret: "(uint64, uint64, uint32, uint64)", body: "return %E.k, %E.r.n, %E.r.w, %E.p.n + %E.s[1]"},
+	{id: "wrap_write", on: []string{"wrap"}, ret: "(uint64, uint64, uint64)", body: "%E.k += 1\n\t%E.p.n = %E.p.n * 3\n\t%E.r = Rec{n: 42}\n\t%E.s = append(%E.s, 8)\n\treturn %E.k + %E.p.n, %E.r.n, uint64(len(%E.s))"},
+	{id: "wrap_copyinner", on: []string{"wrap"}, ret: "(uint64, uint64)", body: "var c Rec = %E.r\n\tc.n = 1\n\tq2 := %E.p\n\tq2.n = 2\n\treturn %E.r.n + c.n, %E.p.n"},
+	// string-keyed maps, maps of slices
+	{id: "mstr_ops", on: []string{"mstr"}, ret: "(uint64, bool, uint64, uint64)", body: "%E[\"k\"] = 5\n\t%E[\"one\"] += 1\n\tv, ok := %E[\"zz\"]\n\tdelete(%E, \"k\")\n\tvar t uint64 = 0\n\tfor k, x := range %E {\n\t\tt += x + uint64(len(k))\n\t}\n\treturn v + %E[\"one\"], ok, uint64(len(%E)), t"},
+	{id: "msl_ops", on: []string{"msl"}, ret: "(uint64, byte, uint64)", body: "%E[2] = append(%E[1], 9)\n\tb := %E[1]\n\tb[0] = 77\n\treturn uint64(len(%E[2])), %E[1][0], uint64(len(%E[5]))"},
+	// pointers to scalars
+	{id: "pu64_ops", on: []string{"pu64"}, ret: "(uint64, bool)", body: "*%E = *%E + 4\n\t*%E ^= 1\n\talias := %E\n\t*alias = *alias * 2\n\treturn *%E, %E == alias"},
+	{id: "pu8_ops", on: []string{"pu8"}, ret: "(byte, uint64)", body: "*%E = *%E + 10\n\t*%E -= 3\n\treturn *%E, uint64(*%E) + 1"},
+	// function values
+	{id: "fn_call", on: []string{"fn"}, ret: "(uint64, uint64)", body: "g := %E\n\treturn %E(3), g(g(1))"},
 	{id: "maprangekey", on: []string{"map"}, ret: "uint64", body: "var ks uint64 = 0\n\tfor k := range %E {\n\t\tks += k * 3\n\t}\n\treturn ks"},
 }
 
@@ -216,6 +309,24 @@ func useFuncs() string {
 			body = "return v.n + uint64(v.w)"
 		case "map":
 			body = "return uint64(len(v)) + v[1]"
+		case "srec":
+			body = "return uint64(len(v)) + v[0].n"
+		case "sptr":
+			body = "return uint64(len(v)) + v[0].n"
+		case "wrap":
+			body = "return v.k + v.r.n"
+		case "mstr":
+			body = "return uint64(len(v)) + v[\"one\"]"
+		case "pu64":
+			body = "return *v + 1"
+		case "pu8":
+			body = "return uint64(*v) + 1"
+		case "fn":
+			body = "return v(4)"
+		case "sstr":
+			body = "return uint64(len(v)) + uint64(len(v[0]))"
+		case "msl":
+			body = "return uint64(len(v)) + uint64(len(v[1]))"
 		}
 		fmt.Fprintf(&b, "func use_%s(v %s) uint64 {\n\t%s\n}\n\n", t.id, t.goT, body)
 	}
